@@ -529,6 +529,9 @@ type vf35NodeOpts struct {
 	MetaEnabled       bool
 	AllowEC           bool
 	StorageEmission   uint64
+	// IndexerTimeout is the cache timeout of the real innerRingIndexer (configuration
+	// value indexer.cache_timeout).  0 = every lookup goes to the chain.
+	IndexerTimeout time.Duration
 }
 
 // vf35NewNode assembles the state, clients, processors and listeners like innerring.New
@@ -573,7 +576,7 @@ func vf35NewNode(t testing.TB, rng *rand.Rand, ch *vf35Chain, o vf35NodeOpts) *v
 	neofsCli, err := neofsClient.NewFromMorph(ch.main, cs.neofs, 0, neofsClient.TryNotary(), neofsClient.AsAlphabet())
 	must(err)
 
-	srv.statusIndex = newInnerRingIndexer(ch.fs, NewIRFetcherWithNotary(ch.fs), n.key.PublicKey(), 0)
+	srv.statusIndex = newInnerRingIndexer(ch.fs, NewIRFetcherWithNotary(ch.fs), n.key.PublicKey(), o.IndexerTimeout)
 
 	n.fsL, err = event.NewListener(event.ListenerParams{Logger: log, Client: ch.fs})
 	must(err)
